@@ -2,6 +2,7 @@ SPECIFICATION Spec
 CONSTANTS
   AB_PiDenominator = FALSE
   EstimatorNs = {3, 4, 5, 8, 12, 20, 63, 64, 170, 171, 400}
+  BigShapes <- MCBigQuick
   PopStructs <- MCPops
   MaxSitesFor <- MCMax
 INVARIANTS
